@@ -12,9 +12,14 @@ Next == \E o \in Ops : Step(o)
 Spec == Init /\ [][Next]_vars
 View == st
 Inv == QWellFormed(st) /\ C01View(V(st))
+\* refinement into the integer abstraction TwoQueueLen (bounds proved by Apalache for every size/quota/ghost capacity)
+QL == INSTANCE TwoQueueLen WITH S <- Size, QQ <- Q, GG <- G, r <- Len(st.recent), f <- Len(st.frequent), g <- Len(st.ghost)
 StepOK == LET o == hist'[Len(hist')]
               x == QApply(o, st)
-          IN GenericStepOK(V(st), o @@ [ret |-> x.ret], V(x.st), QReadOnly, FALSE)
+              n == x.st
+          IN /\ GenericStepOK(V(st), o @@ [ret |-> x.ret], V(x.st), QReadOnly, FALSE)
+             /\ Assert(QL!NextRel(Len(st.recent), Len(st.frequent), Len(st.ghost), Len(n.recent), Len(n.frequent), Len(n.ghost)),
+                       <<"step is not a step of TwoQueueLen", st, o, n>>)
 EmitState == IF Emit THEN PrintT(<<"STATE", ToJson([path |-> hist])>>) ELSE TRUE
 EmitOps == IF Emit THEN PrintT(<<"OPS", ToJson([ops |-> Ops])>>) ELSE TRUE
 ASSUME EmitOps
